@@ -487,7 +487,28 @@ func VerifC11_PublicTypes() {
 		return &openfgav1.RelationMetadata{DirectlyRelatedUserTypes: []*openfgav1.RelationReference{fWild(t)}}
 	}
 	var td *openfgav1.TypeDefinition
-	if zzverif.Choose("shape", 2) == 0 {
+	shape := zzverif.Choose("shape", 3)
+	if shape == 2 {
+		// a relation with k public types (k = 1..5: the list's spare capacity depends on k) used by two
+		// relations that each add a public type of their own, directly or through a union
+		k := 1 + zzverif.Choose("public-types-of-n", 5)
+		var many []*openfgav1.RelationReference
+		for _, t := range []string{"ua", "ub", "uc", "ud", "ue"}[:k] {
+			many = append(many, fWild(t))
+		}
+		if zzverif.Choose("through", 2) == 0 {
+			td = &openfgav1.TypeDefinition{Type: "doc", Relations: map[string]*openfgav1.Userset{"n": fThis(), "p1": fThis(), "p2": fThis()},
+				Metadata: &openfgav1.Metadata{Relations: map[string]*openfgav1.RelationMetadata{
+					"n":  {DirectlyRelatedUserTypes: many},
+					"p1": {DirectlyRelatedUserTypes: []*openfgav1.RelationReference{fUserset("doc", "n"), fWild("ux")}},
+					"p2": {DirectlyRelatedUserTypes: []*openfgav1.RelationReference{fUserset("doc", "n"), fWild("uy")}}}}}
+		} else {
+			td = &openfgav1.TypeDefinition{Type: "doc", Relations: map[string]*openfgav1.Userset{"n": fThis(), "q1": fThis(), "q2": fThis(),
+				"p1": fOp(0, fComputed("n"), fComputed("q1")), "p2": fOp(0, fComputed("n"), fComputed("q2"))},
+				Metadata: &openfgav1.Metadata{Relations: map[string]*openfgav1.RelationMetadata{
+					"n": {DirectlyRelatedUserTypes: many}, "q1": wild("ux"), "q2": wild("uy")}}}
+		}
+	} else if shape == 0 {
 		var first []*openfgav1.RelationReference
 		for _, t := range ts[:n-1] {
 			first = append(first, fWild(t))
@@ -777,9 +798,9 @@ func VerifC06_Names() {
 	td := &openfgav1.TypeDefinition{Type: "doc", Relations: map[string]*openfgav1.Userset{
 		n1: fThis(), n2: fOp(0, fThis(), fTTU(n2, "p")), n3: fOp(zzverif.Choose("op", 3), fThis(), fComputed(n2)), "p": fThis()},
 		Metadata: &openfgav1.Metadata{Relations: map[string]*openfgav1.RelationMetadata{
-			n1: {DirectlyRelatedUserTypes: []*openfgav1.RelationReference{fRef(types[0]), fWild(types[1])}},
-			n2: {DirectlyRelatedUserTypes: []*openfgav1.RelationReference{fRef(types[1]), fUserset("doc", n1)}},
-			n3: {DirectlyRelatedUserTypes: []*openfgav1.RelationReference{fRef(types[0]), fRef(types[1]), fUserset("doc", n1)}},
+			n1:  {DirectlyRelatedUserTypes: []*openfgav1.RelationReference{fRef(types[0]), fWild(types[1])}},
+			n2:  {DirectlyRelatedUserTypes: []*openfgav1.RelationReference{fRef(types[1]), fUserset("doc", n1)}},
+			n3:  {DirectlyRelatedUserTypes: []*openfgav1.RelationReference{fRef(types[0]), fRef(types[1]), fUserset("doc", n1)}},
 			"p": {DirectlyRelatedUserTypes: []*openfgav1.RelationReference{fRef("doc")}}}}}
 	m := &openfgav1.AuthorizationModel{SchemaVersion: "1.1", TypeDefinitions: []*openfgav1.TypeDefinition{{Type: types[0]}, {Type: types[1]}, td}}
 	key := n1 + "," + n2 + "," + n3 + " " + types[0] + "," + types[1]
